@@ -24,6 +24,7 @@ var noopPkgPrefixes = []string{
 	"github.com/absolute8511/glog",
 	"github.com/coreos/pkg/capnslog",
 	"github.com/youzan/ZanRedisDB/slow",
+	"github.com/youzan/ZanRedisDB/stats",
 	"github.com/youzan/ZanRedisDB/internal/flume_log",
 	"gopkg.in/natefinch/lumberjack.v2",
 	"log",
@@ -248,6 +249,10 @@ func buildStubs() map[string]stubFn {
 	}
 	m["vsym.Tag"] = func(in *Interp, fn *ssa.Function, args []Value) Value {
 		in.tags = append(in.tags, in.concStr(args[0], "tag"))
+		return nil
+	}
+	m["vsym.MapOrder"] = func(in *Interp, fn *ssa.Function, args []Value) Value {
+		in.opts.MapReverse = termArg(args[0]).C == 1
 		return nil
 	}
 	m["vsym.Symbolic"] = func(in *Interp, fn *ssa.Function, args []Value) Value {
@@ -597,7 +602,7 @@ func buildStubs() map[string]stubFn {
 		if in.initMode {
 			return &Agg{e: []Value{in.ctx.BVConst(0, 64), in.ctx.BVConst(1700000000000000000, 64), Ptr{}}}
 		}
-		t := in.fresh("time.Now", "i64", sym.BV(64))
+		t := in.freshEnv("time.Now", sym.BV(64))
 		if in.timeSeq != nil && !in.opts.ConcreteMode {
 			in.assume(in.ctx.SLE(in.timeSeq, t))
 		}
@@ -666,7 +671,7 @@ func buildStubs() map[string]stubFn {
 		if n.IsConst() && n.SignedVal() <= 0 {
 			in.throw("invalid argument to Intn")
 		}
-		t := in.fresh("rand.Intn", "i64", sym.BV(64))
+		t := in.freshEnv("rand.Intn", sym.BV(64))
 		if in.opts.ConcreteMode {
 			return in.ctx.URem(t, n)
 		}
@@ -680,7 +685,7 @@ func buildStubs() map[string]stubFn {
 	randIntn := func(argIdx int) stubFn {
 		return func(in *Interp, fn *ssa.Function, args []Value) Value {
 			n := termArg(args[argIdx])
-			t := in.fresh("rand", "i64", n.S)
+			t := in.freshEnv("rand", n.S)
 			if in.opts.ConcreteMode || in.initMode {
 				return in.ctx.BVConst(0, n.S.W)
 			}
